@@ -21,7 +21,8 @@ ASSUMPTIONS = []
 
 BRACKET_SOUP = ['(', ')', '[', ']', 'CASE', 'END', 'IF', 'END IF', 'FOR', 'FOREACH', 'END LOOP', 'BEGIN', 'case', 'end',
                 'if', 'end if', 'for', 'end loop', 'begin', 'LOOP', 'WHEN', 'THEN', 'ELSE', 'a', 'b', '1', ',', ';', '.',
-                'select', 'from', 'where', 'x', 'f', '--c\n', '/* c */', '+', '=', 'end  if', 'END\tLOOP', 'End', "'('", '"["']
+                'select', 'from', 'where', 'x', 'f', '--c\n', '/* c */', '+', '=', 'end  if', 'END\tLOOP', 'End', "'('", '"["',
+                'WHILE', 'while', 'loop', 'END WHILE', 'END FOR', 'DO', 'ELSIF', 'END CASE', 'DECLARE', 'REPEAT', 'UNTIL']
 
 
 def bracket_soup(rng):
@@ -39,6 +40,30 @@ def gen_text(rng):
         return bracket_soup(rng), 'bracket_soup'
     s, kind = gens.mixed_text(rng)
     return s, kind
+
+
+# the reference matcher's OWN opener / closer tables (pinned here: reading them from sql.X.M_OPEN would make the
+# reference follow a change of the library's tables)
+REF_TABLES = {
+    'SquareBrackets': (('Punctuation', ('[',)), ('Punctuation', (']',))),
+    'Parenthesis': (('Punctuation', ('(',)), ('Punctuation', (')',))),
+    'Case': (('Keyword', ('CASE',)), ('Keyword', ('END',))),
+    'If': (('Keyword', ('IF',)), ('Keyword', ('END IF',))),
+    'For': (('Keyword', ('FOR', 'FOREACH')), ('Keyword', ('END LOOP',))),
+    'Begin': (('Keyword', ('BEGIN',)), ('Keyword', ('END',))),
+}
+
+
+def ref_match(tok, spec):
+    """Token.match(ttype, values) of the pinned table: exact ttype; keywords compared by normalized (upper-cased) value."""
+    from sqlparse import tokens as T
+    tname, values = spec
+    tt = getattr(T, tname)
+    if tok.ttype is not tt:
+        return False
+    if tt in T.Keyword:
+        return tok.normalized in values
+    return tok.value in values
 
 
 def reference_spans(stmt):
@@ -66,9 +91,9 @@ def reference_spans(stmt):
                 tok = it[2]
                 if tok.is_whitespace:
                     push(it)
-                elif tok.match(*cls.M_OPEN):
+                elif ref_match(tok, REF_TABLES[cls.__name__][0]):
                     stack.append([it])
-                elif tok.match(*cls.M_CLOSE):
+                elif ref_match(tok, REF_TABLES[cls.__name__][1]):
                     if stack:
                         fr = stack.pop()
                         fr.append(it)
@@ -123,9 +148,9 @@ def actual_spans(stmt):
                 bad.append(type(n).__name__ + ' consists of whitespace/comments only')
             else:
                 spans.append((type(n).__name__, pos[id(ls[0])], pos[id(ls[-1])]))
-                if not ls[0].match(*type(n).M_OPEN):
+                if not ref_match(ls[0], REF_TABLES[type(n).__name__][0]):
                     bad.append(type(n).__name__ + ' does not start with its opening token')
-                if not ls[-1].match(*type(n).M_CLOSE):
+                if not ref_match(ls[-1], REF_TABLES[type(n).__name__][1]):
                     bad.append(type(n).__name__ + ' does not end (ignoring comments) with its closing token')
         for k in n.tokens:
             walk(k)
